@@ -588,6 +588,8 @@ impl<'w> Ctx<'w> {
             }
             Expr::While(w) => {
                 let fuel = self.fuel.clone().ok_or("while loop without a `fuel=` bound in the target list")?;
+                if fuel == "@param" { self.fuel_param = true; }
+                let fuel = if fuel == "@param" { "fuel".to_string() } else { fuel };
                 let fin = self.fresh("fin");
                 out.push(format!("{}let mut {} : Bool := false", ind(n), fin));
                 out.push(format!("{}for _ in List.range' 0 ({}) do", ind(n), fuel));
@@ -1239,7 +1241,7 @@ impl World {
                         let lean_ty = format!("{} → M {}", ins?.join(" → "), paren(&out));
                         let pname = format!("ext_{}_{}", ty_name, name);
                         self.fns.insert(format!("{}.{}", ty_name, name), FnSig { lean: pname.clone(), params, ret, self_mut, has_self, uses_step: false, ret_is_res: is_res,
-                            uses_decompress: false, uses_w: false, view: None, uses_compress: false, rec_self: false, ext_ty: Some(lean_ty.clone()), externs: vec![] });
+                            uses_decompress: false, uses_w: false, view: None, uses_compress: false, rec_self: false, ext_ty: Some(lean_ty.clone()), externs: vec![], uses_merge: false });
                         return Ok(format!("-- external: `{}::{}` is a parameter `{} : {}` of its callers (signature read from the source)\n", ty_name, name, pname, lean_ty));
                     }
                 }
@@ -1380,12 +1382,12 @@ impl World {
             }
             let (rt, is_res) = match &sig.output { ReturnType::Default => (Ty::Unit, false), ReturnType::Type(_, t) => match self.ty_of(t, &generics)? { Ty::Res(x) => (*x, true), o => (o, false) } };
             self.fns.insert(fn_key.clone(), FnSig { lean: format!("{}.go", lean_name), params: ps, ret: rt, self_mut: rec_self_mut, has_self: rec_has_self, uses_step: false, ret_is_res: is_res,
-                uses_decompress: declared_uses.contains(&"decompress"), uses_w: false, view: None, uses_compress: false, rec_self: true, ext_ty: None, externs: vec![] });
+                uses_decompress: declared_uses.contains(&"decompress"), uses_w: false, view: None, uses_compress: false, rec_self: true, ext_ty: None, externs: vec![], uses_merge: false });
         }
         let mut ctx = Ctx {
             w: self, vars: vec![BTreeMap::new()], widths: Rc::new(RefCell::new(vec![])), ivar_parent: Rc::new(RefCell::new(vec![])),
             pre: vec![], ret_ty: Ty::Unit, muts: vec![], generics: generics.clone(), fuel: opts.get("fuel").cloned(),
-            self_ty: ty_name.map(|s| s.to_string()), fresh: 0, val_mode: vec![], mut_pat_binds: vec![], loop_fin: vec![], used_step: false, local_muts: vec![], used_decompress: false, used_wwrite: false, used_wflush: false, used_compress: false, used_merge: false, tuple_let: opts.contains_key("tuplelet"), xcodec: opts.contains_key("xcodec"), used_xcompress: false, used_xdecompress: false, used_externs: vec![], pending_drops: vec![], elems: BTreeMap::new(), heads: BTreeMap::new(), views: BTreeMap::new(),
+            self_ty: ty_name.map(|s| s.to_string()), fresh: 0, val_mode: vec![], mut_pat_binds: vec![], loop_fin: vec![], used_step: false, local_muts: vec![], used_decompress: false, used_wwrite: false, used_wflush: false, used_compress: false, used_merge: false, tuple_let: opts.contains_key("tuplelet"), xcodec: opts.contains_key("xcodec"), used_xcompress: false, used_xdecompress: false, used_externs: vec![], fuel_param: false, pending_drops: vec![], elems: BTreeMap::new(), heads: BTreeMap::new(), views: BTreeMap::new(),
         };
         let mut params: Vec<String> = vec![];
         let mut rebinds: Vec<String> = vec![];
@@ -1519,6 +1521,10 @@ impl World {
         if used_decompress {
             text = text.replacen(&format!("def {} ", lean_name), &format!("def {} (decompress : CompressionType → List UInt8 → Option (List UInt8)) ", lean_name), 1);
         }
+        if ctx.fuel_param {
+            // `fuel=@param`: the loop bound is an explicit first argument (the tie proves which values suffice)
+            text = text.replacen(&format!("def {} ", lean_name), &format!("def {} (fuel : Nat) ", lean_name), 1);
+        }
         for (pn, pt) in ctx.used_externs.iter().rev() {
             text = text.replacen(&format!("def {} ", lean_name), &format!("def {} ({} : {}) ", lean_name, pn, pt), 1);
         }
@@ -1530,6 +1536,7 @@ impl World {
         if ctx.used_xcompress {
             text = text.replacen(&format!("def {} ", lean_name), &format!("def {} (xcompress : String → Nat → List UInt8 → Option (List UInt8)) ", lean_name), 1);
         }
+        let used_merge = ctx.used_merge;
         if ctx.used_merge {
             text = text.replacen(&format!("def {} ", lean_name), &format!("def {} (merge : List UInt8 → List (List UInt8) → Except Unit Cow) ", lean_name), 1);
         }
@@ -1575,7 +1582,7 @@ impl World {
         }
         self.fns.insert(
             fn_key,
-            FnSig { lean: plain_name, params: sig_params, ret: ret_inner, self_mut, has_self, uses_step: used_step, ret_is_res: matches!(ret, Ty::Res(_)), uses_decompress: used_decompress, uses_w, view, uses_compress: used_compress, rec_self: false, ext_ty: None, externs: my_externs },
+            FnSig { lean: plain_name, params: sig_params, ret: ret_inner, self_mut, has_self, uses_step: used_step, ret_is_res: matches!(ret, Ty::Res(_)), uses_decompress: used_decompress, uses_w, view, uses_compress: used_compress, rec_self: false, ext_ty: None, externs: my_externs, uses_merge: used_merge },
         );
         Ok(text)
     }
